@@ -539,3 +539,200 @@ Proof.
   - apply sset_length. exact Hlt.
   - intros k Hk. apply nth_error_sset_other; assumption.
 Qed.
+
+(* ------------------------------------------------------------------ slices with register bounds *)
+(* wait_all @a[Rs:Re] with both bounds taken from registers passes exactly when
+   every entry s <= k < e is defined, and otherwise blocks at that line *)
+Theorem wait_all_register_slice : forall st pc a rs re s e l,
+  reg_ok rs = true -> reg_ok re = true ->
+  rd st rs = Some s -> rd st re = Some e ->
+  find Z.eqb a (arrs st) = Some l -> 0 <= s -> s <= e -> e <= Zlen l ->
+  ((forall k, s <= k < e -> exists v, nth_error l (Z.to_nat k) = Some (Some v)) ->
+   execute_command (IWaitAll a (OReg rs) (OReg re)) st pc = Ok (st, pc + 1)) /\
+  ((exists k, s <= k < e /\ nth_error l (Z.to_nat k) = Some None) ->
+   execute_command (IWaitAll a (OReg rs) (OReg re)) st pc = Block).
+Proof.
+  intros st pc a rs re s e l Hrs Hre Rs Re Hf H0 H1 H2.
+  assert (Hstep : step (IWaitAll a (OReg rs) (OReg re)) st pc =
+                  if forallb (fun k => defined (nth_error l k)) (range s e)
+                  then Next st (pc + 1) else Stop (Blocked pc)).
+  { unfold step. cbn [instr_regs_ok opnd_ok oval]. rewrite Hrs, Hre. cbn [andb negb].
+    rewrite Rs, Re, Hf. replace ((0 <=? s) && (s <=? e) && (e <=? Zlen l)) with true by lia. reflexivity. }
+  assert (Href : to_sres (execute_command (IWaitAll a (OReg rs) (OReg re)) st pc) pc =
+                 step (IWaitAll a (OReg rs) (OReg re)) st pc).
+  { apply step_refines. rewrite Hstep. destruct (forallb _ _); discriminate. }
+  rewrite Hstep in Href. split.
+  - intro Hall.
+    assert (Hfb : forallb (fun k => defined (nth_error l k)) (range s e) = true).
+    { apply forallb_forall. intros k Hk. unfold range in Hk. apply in_seq in Hk.
+      destruct (Hall (Z.of_nat k)) as [v Hv]; [lia|]. rewrite Nat2Z.id in Hv. rewrite Hv. reflexivity. }
+    rewrite Hfb in Href.
+    destruct (execute_command _ st pc) as [[st' pc']|k|]; cbn [to_sres] in Href; congruence.
+  - intros [k [Hk Hn]].
+    assert (Hfb : forallb (fun k => defined (nth_error l k)) (range s e) = false).
+    { destruct (forallb _ (range s e)) eqn:E; [|reflexivity].
+      rewrite forallb_forall in E. specialize (E (Z.to_nat k)).
+      rewrite Hn in E. cbn in E. symmetry. apply E. unfold range. apply in_seq. lia. }
+    rewrite Hfb in Href.
+    destruct (execute_command _ st pc) as [[st' pc']|k'|]; cbn [to_sres] in Href; congruence.
+Qed.
+
+(* outside the defined domain the model follows Python: a stop bound past the
+   end is clamped to the length (no fault) *)
+Theorem wait_all_slice_clamps : forall st pc a s e l,
+  find Z.eqb a (arrs st) = Some l -> 0 <= s -> s <= Zlen l -> Zlen l <= e ->
+  execute_command (IWaitAll a (OImm s) (OImm e)) st pc =
+  execute_command (IWaitAll a (OImm s) (OImm (Zlen l))) st pc.
+Proof.
+  intros st pc a s e l Hf H0 H1 H2. rewrite !unfold_exec.
+  unfold inc_program_counter, instr_wait_all, expand_slice, arrays_getslice, arrays_get_array.
+  cbn [expand_entry bind fst snd]. rewrite Hf. cbn [bind].
+  unfold py_getslice. unfold py_clamp.
+  assert (Hl : 0 <= Zlen l) by (unfold Zlen; lia).
+  replace (e <? 0) with false by lia. replace (Zlen l <? 0) with false by lia.
+  rewrite (Z.min_r e (Zlen l)) by lia. rewrite Z.min_id. reflexivity.
+Qed.
+
+(* ------------------------------------------------------------------ faults *)
+(* the faults the property lists, as conditions on the instruction and the state
+   in which it starts *)
+Inductive listed_fault : instr -> state -> fkind -> Prop :=
+| LF_store_undefined : forall st r a ix,
+    rd st r = None -> listed_fault (IStore r a ix) st FUndefReg
+| LF_load_undefined : forall st r a ix n l,
+    oval st ix = Some n -> 0 <= n -> find Z.eqb a (arrs st) = Some l ->
+    nth_error l (Z.to_nat n) = Some None -> listed_fault (ILoad r a ix) st FUndefEntry
+| LF_modulus : forall st o d ra rb rm m,
+    rd st rm = Some m -> m < 1 -> listed_fault (IClassical (COpm o d ra rb rm)) st FModulus
+| LF_double_alloc : forall st r q,
+    rd st r = Some q -> 0 <= q -> nth_error (um st) (Z.to_nat q) = Some true ->
+    listed_fault (IQalloc r) st FAlloc
+| LF_free_unallocated : forall st r q,
+    rd st r = Some q -> 0 <= q -> nth_error (um st) (Z.to_nat q) = Some false ->
+    listed_fault (IQfree r) st FFree
+| LF_load_past_end : forall st r a ix n l,
+    oval st ix = Some n -> find Z.eqb a (arrs st) = Some l -> Zlen l <= n ->
+    listed_fault (ILoad r a ix) st FIndex
+| LF_store_past_end : forall st r v a ix n l,
+    rd st r = Some v -> oval st ix = Some n -> find Z.eqb a (arrs st) = Some l -> Zlen l <= n ->
+    listed_fault (IStore r a ix) st FIndex
+| LF_undef_past_end : forall st a ix n l,
+    oval st ix = Some n -> find Z.eqb a (arrs st) = Some l -> Zlen l <= n ->
+    listed_fault (IUndef a ix) st FIndex.
+
+Lemma nth_some_lt : forall (A : Type) (l : list A) n x, 0 <= n -> nth_error l (Z.to_nat n) = Some x -> n < Zlen l.
+Proof.
+  intros A l n x H0 H. assert (Hn : nth_error l (Z.to_nat n) <> None) by congruence.
+  apply nth_error_Some in Hn. unfold Zlen. lia.
+Qed.
+
+(* the reference semantics faults (it is NOT open) on each listed fault: the
+   defined domain does not hide any of them *)
+Theorem listed_fault_in_domain : forall i st k pc,
+  instr_regs_ok i = true -> listed_fault i st k -> step i st pc = Stop (Fault k pc).
+Proof.
+  intros i st k pc Hok H. unfold step. rewrite Hok. cbn [negb].
+  destruct H as [st r a ix Hr|st r a ix n l Hv Hn Hf He|st o d ra rb rm m Hm Hlt
+                |st r q Hr Hq Hu|st r q Hr Hq Hu|st r a ix n l Hv Hf Hl
+                |st r v a ix n l Hr Hv Hf Hl|st a ix n l Hv Hf Hl].
+  - rewrite Hr. reflexivity.
+  - rewrite Hv. replace (n <? 0) with false by lia. rewrite Hf.
+    pose proof (nth_some_lt _ _ _ _ Hn He). replace (Zlen l <=? n) with false by lia.
+    rewrite He. reflexivity.
+  - rewrite Hm. replace (m <? 1) with true by lia. reflexivity.
+  - rewrite Hr. replace (q <? 0) with false by lia.
+    pose proof (nth_some_lt _ _ _ _ Hq Hu). replace (Zlen (um st) <=? q) with false by lia.
+    rewrite Hu. reflexivity.
+  - rewrite Hr. replace (q <? 0) with false by lia.
+    pose proof (nth_some_lt _ _ _ _ Hq Hu). replace (Zlen (um st) <=? q) with false by lia.
+    rewrite Hu. reflexivity.
+  - rewrite Hv. assert (0 <= Zlen l) by (unfold Zlen; lia).
+    replace (n <? 0) with false by lia. rewrite Hf.
+    replace (Zlen l <=? n) with true by lia. reflexivity.
+  - rewrite Hr, Hv. assert (0 <= Zlen l) by (unfold Zlen; lia).
+    replace (n <? 0) with false by lia. rewrite Hf.
+    replace (n <? Zlen l) with false by lia. reflexivity.
+  - rewrite Hv. assert (0 <= Zlen l) by (unfold Zlen; lia).
+    replace (n <? 0) with false by lia. rewrite Hf.
+    replace (n <? Zlen l) with false by lia. reflexivity.
+Qed.
+
+(* ... and so does the implementation model *)
+Theorem listed_fault_raises : forall i st k pc,
+  instr_regs_ok i = true -> listed_fault i st k -> execute_command i st pc = Raise k.
+Proof.
+  intros i st k pc Hok H.
+  pose proof (listed_fault_in_domain i st k pc Hok H) as Hs.
+  assert (Hr : to_sres (execute_command i st pc) pc = step i st pc).
+  { apply step_refines. rewrite Hs. discriminate. }
+  rewrite Hs in Hr.
+  destruct (execute_command i st pc) as [[st' pc']|k'|]; cbn [to_sres] in Hr; congruence.
+Qed.
+
+(* a raised error ends the run at that instruction: the outcome names its line,
+   the state is the state in which the instruction started, the pc still points
+   at it *)
+Theorem raise_names_line : forall prog st pc fuel i k,
+  0 <= pc -> nth_error prog (Z.to_nat pc) = Some i ->
+  execute_command i st pc = Raise k ->
+  Exec.run_from prog st pc (S fuel) = (st, pc, Fault k pc).
+Proof.
+  intros prog st pc fuel i k H0 Hi Hr.
+  pose proof (nth_some_lt _ _ _ _ H0 Hi) as Hlt.
+  rewrite exec_run_eq. replace (pc <? Zlen prog) with true by lia.
+  rewrite py_getitem_nonneg by lia. replace (Zlen prog <=? pc) with false by lia.
+  rewrite Hi, Hr. reflexivity.
+Qed.
+
+Theorem fault_names_line : forall prog st pc fuel i k,
+  0 <= pc -> nth_error prog (Z.to_nat pc) = Some i ->
+  instr_regs_ok i = true -> listed_fault i st k ->
+  Exec.run_from prog st pc (S fuel) = (st, pc, Fault k pc).
+Proof.
+  intros prog st pc fuel i k H0 Hi Hok Hl.
+  apply (raise_names_line prog st pc fuel i k H0 Hi).
+  apply listed_fault_raises; assumption.
+Qed.
+
+(* (st', pc') is reached from (st, pc) by successfully executed instructions *)
+Inductive reaches (prog : list instr) : state -> Z -> state -> Z -> Prop :=
+| reaches_here : forall st pc, reaches prog st pc st pc
+| reaches_step : forall st pc i st1 pc1 st' pc',
+    pc < Zlen prog -> py_getitem prog pc = Ok i ->
+    execute_command i st pc = Ok (st1, pc1) ->
+    reaches prog st1 pc1 st' pc' -> reaches prog st pc st' pc'.
+
+(* whenever a run ends in a fault: the line named is the final pc, the final
+   state is the state in which the faulting instruction was started (it was
+   reached through successful instructions only and the faulting instruction
+   changed nothing), and that instruction is the one that raised *)
+Theorem fault_stops : forall fuel prog st pc st' pc' k line,
+  Exec.run_from prog st pc fuel = (st', pc', Fault k line) ->
+  line = pc' /\ reaches prog st pc st' pc' /\
+  exists i, py_getitem prog pc' = Ok i /\ execute_command i st' pc' = Raise k.
+Proof.
+  induction fuel as [|f IH]; intros prog st pc st' pc' k line H; rewrite exec_run_eq in H;
+    destruct (pc <? Zlen prog) eqn:E; try discriminate;
+    destruct (py_getitem prog pc) as [i|k0|] eqn:Hi; try discriminate.
+  destruct (execute_command i st pc) as [[st1 pc1]|k1|] eqn:Hx; try discriminate.
+  - destruct (IH _ _ _ _ _ _ _ H) as [Hl [Hr Hf]]. split; [exact Hl|]. split; [|exact Hf].
+    eapply reaches_step; eauto. lia.
+  - inversion H; subst. split; [reflexivity|]. split; [apply reaches_here|].
+    exists i. split; assumption.
+Qed.
+
+(* the same for a blocked wait *)
+Theorem blocked_stops : forall fuel prog st pc st' pc' line,
+  Exec.run_from prog st pc fuel = (st', pc', Blocked line) ->
+  line = pc' /\ reaches prog st pc st' pc' /\
+  exists i, py_getitem prog pc' = Ok i /\ execute_command i st' pc' = Block.
+Proof.
+  induction fuel as [|f IH]; intros prog st pc st' pc' line H; rewrite exec_run_eq in H;
+    destruct (pc <? Zlen prog) eqn:E; try discriminate;
+    destruct (py_getitem prog pc) as [i|k0|] eqn:Hi; try discriminate.
+  destruct (execute_command i st pc) as [[st1 pc1]|k1|] eqn:Hx; try discriminate.
+  - destruct (IH _ _ _ _ _ _ H) as [Hl [Hr Hf]]. split; [exact Hl|]. split; [|exact Hf].
+    eapply reaches_step; eauto. lia.
+  - inversion H; subst. split; [reflexivity|]. split; [apply reaches_here|].
+    exists i. split; assumption.
+Qed.
